@@ -70,6 +70,21 @@ def equal_owner_pass(ctx):
                         f'{any(c is y for c in rr.contents)}, eContainer() is the new container {y.eContainer() is b3}',
                         {'equal_owner': k, 'proxy_root': True})
             return
+        # ... and giving the slot the object itself where it holds the proxy (or the proxy again where it holds the object)
+        # changes nothing: the child is held once and knows its container
+        for form in ('instance', 'proxy', 'instance'):
+            v = y if form == 'instance' else EProxy(wrapped=y)
+            if many:
+                b3.items.append(v)
+            else:
+                b3.items = v
+            held = [c for c in (b3.items if many else [b3.items]) if c is y or getattr(c, '_wrapped', None) is y]
+            if len(held) != 1 or y.eContainer() is not b3 or y.eContainmentFeature() is None:
+                ctx.violate({'clause': 'multi-owner', 'through_proxy': True, 'reset': True},
+                            f'multi-owner: a contained child given again to its own slot as {form} (the slot holds it through '
+                            f'a proxy or directly): held {len(held)} time(s), eContainer() is the container {y.eContainer() is b3}',
+                            {'equal_owner': k, 'proxy_root': True, 'reset': form})
+                return
         # two equal roots: removing the second must not take out the first
         r = Resource()
         r.append(b1); r.append(b2)
